@@ -400,6 +400,9 @@ func ruleLoopExit(c *Ctx) {
 				iff, ok := e.From.Instrs[len(e.From.Instrs)-1].(*ssa.If)
 				good := ok && isErrClosedTest(iff.Cond) && e.From.Succs[0] == e.To
 				c.Check("LOOPEXIT", fmt.Sprintf("%s:exit#%d", short(f), i), blockPos(p, e.From), good, "the serve loop can be left on an edge other than errors.Is(err, net.ErrClosed): a transient accept/read error stops the listener")
+				if good {
+					c.Check("LOOPEXIT", fmt.Sprintf("%s:exit#%d:tests-the-listening-socket's-error", short(f), i), blockPos(p, e.From), closedTestOnSocketError(c, iff.Cond), "the serve loop is left on errors.Is(x, net.ErrClosed) where x is not the error of the loop's own accept/read (e.g. the error of handling one datagram, which is also ErrClosed when an association's socket was just closed): one client's failure stops the listener for everybody")
+				}
 			}
 		}
 		c.Floor("LOOPEXIT", "loops in "+short(f), n, 1)
